@@ -170,14 +170,29 @@ def bp_case(p, res):
                         v("raises", f"clean LLRs magnitude {mag}: {type(e).__name__}: {str(e)[:200]}")
                         break
                     res.ev(len(cws), nontrivial=len(cws) - 1, transitions=1)
-                    if tuple(y.shape) != (len(cws), k):
-                        v("shape", f"output shape {tuple(y.shape)} for {len(cws)} blocks, k={k}")
+                    if not isinstance(y, torch.Tensor) or tuple(y.shape) != (len(cws), k):
+                        v("shape", f"plain call (magnitude {mag}, after calls with other magnitudes and with return_soft=True on this decoder) returned "
+                          f"{type(y).__name__} {tuple(y.shape) if isinstance(y, torch.Tensor) else [tuple(o.shape) for o in y]} for {len(cws)} blocks, k={k}")
                         break
                     got = C.tensor_to_ints(y)
                     bad = [(m, g) for m, g in zip(msgs, got) if g != m]
                     if bad:
                         m, g = bad[0]
                         v("clean", f"noise-free LLRs (magnitude {mag}) of codeword {gf2.bits(cws[m], n)} (message {gf2.bits(m, k)}) decoded to {None if g is None else gf2.bits(g, k)}", {"m": m, "mag": mag})
+                        break
+                    # the same words once more with the per-call option return_soft=True (the next magnitude is a plain call again): the hard part
+                    # of the answer is the same clean decoding
+                    try:
+                        o = dec(x, return_soft=True)
+                        res.ev(len(cws), nontrivial=len(cws) - 1, transitions=1)
+                        if not (isinstance(o, tuple) and len(o) == 2 and tuple(o[0].shape) == (len(cws), k)):
+                            v("shape", f"return_soft=True (clean LLRs magnitude {mag}) returned {type(o).__name__}")
+                            break
+                        if C.tensor_to_ints(o[0]) != got:
+                            v("clean", f"return_soft=True changes the hard decisions on noise-free LLRs (magnitude {mag})")
+                            break
+                    except Exception as e:  # noqa: BLE001
+                        v("raises", f"clean LLRs magnitude {mag}, return_soft=True: {type(e).__name__}: {str(e)[:200]}")
                         break
                 if mode == "clean-only":
                     continue
